@@ -12,11 +12,11 @@ static const uint32_t ID_VALS[] = { 0x80u, 0x81u, 0x40000080u, 0x40000081u };
 static const uint32_t CY_TICKS_X2[] = { 0, 2, 4, 6, 1 };   /* period in half ticks: 0, 1, 2, 3 ticks and half a tick (below resolution) */
 enum { E_ID0 = 0, E_CY0 = 4, E_F80 = 9, E_F81, E_F7F, E_START, E_STOP, E_PREOP, E_RESET, E_TICK, E_GETERR, E_RPDO_A, E_RPDO_B, E_LOCAL, E_N };
 
-static const char *cfg_name(int c) { static const char *const n[] = { "1kHz 1005h=80h 1006h=0", "1kHz 80h/2 ticks", "1kHz producer 40000080h/2 ticks", "1kHz producer 40000081h/3 ticks", "10kHz producer 40000080h/2 ticks" }; return n[c]; }
+static const char *cfg_name(int c) { static const char *const n[] = { "1kHz 1005h=80h 1006h=0", "1kHz 80h/2 ticks", "1kHz producer 40000080h/2 ticks", "1kHz producer 40000081h/3 ticks", "10kHz producer 40000080h/2 ticks", "1kHz producer bit set, 1006h=0 at start-up" }; return n[c]; }
 
 static int build(int cfg)
 {
-    static const uint32_t ID0[] = { 0x80u, 0x80u, 0x40000080u, 0x40000081u, 0x40000080u }; static const uint32_t CYT[] = { 0, 2, 2, 3, 2 };
+    static const uint32_t ID0[] = { 0x80u, 0x80u, 0x40000080u, 0x40000081u, 0x40000080u, 0x40000080u }; static const uint32_t CYT[] = { 0, 2, 2, 3, 2, 0 };   /* cfg 5: the usual EDS default - producer bit set, period 0: production has to start with the first valid 1006h write */
     nc_defaults();
     NC.freq = cfg == 4 ? 10000 : 1000; USPT = 1000000u / NC.freq;
     NC.sync = 1; NC.sync_id = ID0[cfg]; NC.sync_cycle = CYT[cfg] * USPT;
@@ -118,5 +118,5 @@ static int step(int e)
     return MC_OK;
 }
 
-static const mc_harness H = { "C16", "c16", 5, cfg_name, build, ev_name, step, 6, 8 };
+static const mc_harness H = { "C16", "c16", 6, cfg_name, build, ev_name, step, 6, 8 };
 int main(int argc, char **argv) { return mc_main(argc, argv, &H); }
